@@ -18,7 +18,12 @@ files and two custom loaders. Every run shows which version of which source it e
 which creators (load_the_loader, get_pipeline_definition, load_pipeline_from_file, load_the_step)
 it invoked; compared with `cache.session`, and judged by `stack_monitor` from the property text:
 after a clear of the layers on its path, or with no_cache, a run sees the present source of ITS OWN
-(loader, parent, name).
+(loader, parent, name). Sources can be MALFORMED (a list at the top level: Loader._load_pipeline rejects the
+payload with PipelineDefinitionError) and be repaired later (world['badv'] = the malformed versions): a look-up
+may fail only if its source is absent or malformed NOW. The one remembered failure of pypyr as it is (the file
+loader's parse is stored by file_cache before the rejection) is the open finding `KF_REJECTED`; the model mirrors it
+(`Stack.loadDef`, theorems failed_run_leaves_only_rejected_parse / rejected_file_is_remembered), any other
+remembered failure is a violation (clause failure_not_cached, layer stack).
 """
 from __future__ import annotations
 
@@ -55,6 +60,8 @@ ASSUMPTIONS = [
     'working directory; os.chdir between look-ups is a change of the world; a custom loader does not tell the falsy parents None, \'\', 0 apart',
     'in layered sessions the file a (parent, name) request means is supplied by the harness (first existing of parent dir / '
     'absolute path; the relative names used exist nowhere else — checked); the resolution order itself is C19',
+    'whether a payload is a mapping at the top level is a property of the content, so of the version (World.mapping : Ver -> Bool, the '
+    'same for all worlds of a session); malformed = a yaml list / a list returned by a custom loader',
     'editing a step module is not observable after a clear (Python keeps the module in sys.modules): for step_cache only the '
     'creator invocation is observed',
 ]
@@ -1252,8 +1259,9 @@ def rq_key(rq):
     return (str(rq['parent']) if rq['parent'] else None, rq['name'])
 
 
-def spec_fresh(world, rqs, l, i):
-    """What an uncached look-up yields in `world` (None = not found / the loader raises)."""
+def spec_raw(world, rqs, l, i):
+    """What the loader itself answers in `world` (None = not found / the loader raises), before the check that a
+    pipeline is a mapping at the top level."""
     rq = rqs[i]
     if l == 0:
         f = spec_file(world['files'], rq)
@@ -1262,6 +1270,13 @@ def spec_fresh(world, rqs, l, i):
         if cl == l and rq_key({'parent': par, 'name': n}) == rq_key(rq):
             return v
     return None
+
+
+def spec_fresh(world, rqs, l, i):
+    """What an uncached look-up yields in `world` (None = it fails: not found / the loader raises / the payload is
+    not a mapping at the top level, world['badv'] = the versions whose content is a list)."""
+    v = spec_raw(world, rqs, l, i)
+    return None if v in world.get('badv', ()) else v
 
 
 def model_world(world, rqs):
@@ -1274,7 +1289,8 @@ def model_world(world, rqs):
     for cl, par, n, v in world['custom']:
         i = next(k for k, rq in enumerate(rqs) if rq_key(rq) == rq_key({'parent': par, 'name': n}))
         custom.append([cl, i, v])
-    return {'resolve': resolve, 'fileVer': [[fid[f], v] for f, v in world['files'].items()], 'custom': custom}
+    return {'resolve': resolve, 'fileVer': [[fid[f], v] for f, v in world['files'].items()], 'custom': custom,
+            'bad': sorted(world.get('badv', ()))}
 
 
 def run_stack_model(env, case):
@@ -1306,8 +1322,16 @@ def stack_monitor(case, runs):
       clear_pipes(), Loader.clear; file loader: clear_all, or file_cache.clear together with one of the former with
       no file-loader run in between);
     * "with caching disabled … identically except that items are re-created": with no_cache the version that runs is
-      the present one and the definition is re-created by every run."""
+      the present one and the definition is re-created by every run;
+    * "a creator that raises leaves nothing cached so a later look-up tries again": a look-up FAILS only if its
+      source is absent or malformed NOW — a failure is never served from a table. The one way pypyr as it is breaks
+      this is recorded as an open finding and reported under its own signature (`KF_REJECTED`): the file loader's
+      parse is stored by file_cache before Loader._load_pipeline rejects it. It is diagnosed from the session itself:
+      the failing look-up is a file-loader look-up rejected (PipelineDefinitionError) WITHOUT parsing any file, the
+      file it means now was parsed-and-rejected by an earlier look-up, and file_cache was not emptied since. Any
+      other remembered failure is a violation."""
     out = []
+    rejected = {}                             # file -> op time of a parse of it that was rejected (file_cache not cleared since)
     rqs = case['rqs']
     world = case['world']
     nc = bool(case.get('noCache'))
@@ -1328,12 +1352,14 @@ def stack_monitor(case, runs):
             t_all = t
             t_files = t
             t_pipes = {l: t for l in t_pipes}
+            rejected.clear()
         elif kind == 'clearLoaders' or (kind == 'clearPipes' and op['l'] is None):
             t_pipes = {l: t for l in t_pipes}
         elif kind == 'clearPipes':
             t_pipes[op['l']] = t
         elif kind == 'clearFiles':
             t_files = t
+            rejected.clear()
         elif kind == 'noCache':
             nc = bool(op['b'])
         elif kind == 'run':
@@ -1350,6 +1376,25 @@ def stack_monitor(case, runs):
                     file_runs.append(t)
                 continue
             now = spec_fresh(world, rqs, l, i)
+            f_now = spec_file(world['files'], rqs[i]) if l == 0 else None
+            if ran is None and not nc and now is not None:
+                # a failure although the source is there and well-formed now: some table served a failure
+                src = f'({LOADER_NAMES[l]}, {rqs[i]["parent"]}, {rqs[i]["name"]})'
+                if l == 0 and obs.get('err') == 'PipelineDefinitionError' and not obs['fileRead'] and f_now in rejected:
+                    out.append((dict(KF_REJECTED),
+                                f'run {k - 1} (via {op["via"]}) of {src} was rejected ({obs.get("err")}) without reading any '
+                                f'file although {f_now} now holds the well-formed version {now}: its malformed parse, '
+                                f'rejected at op {rejected[f_now]}, is still in file_cache'))
+                else:
+                    out.append((dict(sig, clause='failure_not_cached'),
+                                f'run {k - 1} (via {op["via"]}) of {src} failed ({obs.get("err")}) although its source is '
+                                f'present and well-formed now (version {now}): a failed look-up was remembered'))
+                if l == 0:
+                    file_runs.append(t)
+                continue
+            if (l == 0 and not nc and ran is None and obs.get('err') == 'PipelineDefinitionError' and obs['fileRead']
+                    and f_now is not None and world['files'][f_now] in world.get('badv', ())):
+                rejected.setdefault(f_now, t)
             if nc:
                 if ran != now:
                     out.append((dict(sig, clause='no_cache'),
@@ -1385,6 +1430,9 @@ def stack_monitor(case, runs):
 
 ALLOWED_NESTING = {('pipeline_cache', 'file_cache')}
 
+# the open finding of known_findings.json (C13, "malformed top level cached before rejection")
+KF_REJECTED = {'site': 'file_cache', 'cause': 'malformed-top-level-cached-before-rejection', 'clause': 'failure_not_cached'}
+
 
 def check_stack_case(env, res, case, count=True):
     info = {}
@@ -1408,8 +1456,16 @@ def check_stack_case(env, res, case, count=True):
         for op in case['ops']:
             res.count('stack:' + op['op'] + (':' + op['via'] if op['op'] == 'run' else ''))
     vs = stack_monitor(case, impl)
-    for sig, detail in vs[:3]:
+    # the open finding first, then at most three others: neither hides the other
+    kf = [v for v in vs if v[0] == KF_REJECTED]
+    for sig, detail in kf[:1] + [v for v in vs if v[0] != KF_REJECTED][:3]:
         res.violation(case, f'{sig["clause"]}: {detail}', signature=sig, impl=impl)
+    if count:
+        for r in impl:
+            if r.get('ran') is None:
+                res.count('stack:failed-run:' + str(r.get('err')))
+        if kf:
+            res.count('stack:remembered-rejection(open finding)', len(kf))
     keys = ('ran', 'loaderMade', 'defMade', 'fileRead', 'stepMade')
     mi = [{k: r.get(k) for k in keys} for r in impl]
     mm = [{k: r.get(k) for k in keys} for r in model]
@@ -1446,7 +1502,7 @@ class Versions:
 
 def base_world(ver, files=None, custom_rqs=None):
     files = FILES if files is None else files
-    w = {'files': {f: ver.new() for f in files}, 'dirs': list(DIRS), 'custom': []}
+    w = {'files': {f: ver.new() for f in files}, 'dirs': list(DIRS), 'custom': [], 'badv': []}
     for l in (1, 2):
         for par, n in (CUSTOM_RQS if custom_rqs is None else custom_rqs):
             if (par, n) == ('', 'n'):
@@ -1457,29 +1513,72 @@ def base_world(ver, files=None, custom_rqs=None):
 
 def edit_world(world, ver, rng=None, what=None):
     """a new world: some sources edited / removed / created"""
-    w = {'files': dict(world['files']), 'dirs': list(world['dirs']), 'custom': [list(c) for c in world['custom']]}
+    w = {'files': dict(world['files']), 'dirs': list(world['dirs']), 'custom': [list(c) for c in world['custom']],
+         'badv': list(world.get('badv', ()))}
+    if what == 'none-but-copy':
+        return w
     if what == 'all' or rng is None:
         for f in list(w['files']):
             w['files'][f] = ver.new()
         for c in w['custom']:
             c[3] = ver.new()
         return w
+
+    def newv():
+        # a new version of a source; now and then one that is malformed (a list at the top level)
+        v = ver.new()
+        if rng.random() < BAD_P:
+            w['badv'].append(v)
+        return v
     for f in FILES:
         x = rng.random()
         if f in w['files']:
             if x < 0.5:
-                w['files'][f] = ver.new()
+                w['files'][f] = newv()
             elif x < 0.62:
                 del w['files'][f]
         elif x < 0.5:
-            w['files'][f] = ver.new()
+            w['files'][f] = newv()
     for c in w['custom']:
         x = rng.random()
         if x < 0.5:
-            c[3] = ver.new()
+            c[3] = newv()
         elif x < 0.6:
             c[3] = None
     return w
+
+
+BAD_P = 0.2
+
+
+def break_source(l, parent, name):
+    """world edit: the source of the request gets a new, MALFORMED version (top level is a list)"""
+    def fn(w, ver):
+        w = edit_world(w, ver, what='none-but-copy')
+        v = ver.new()
+        w['badv'].append(v)
+        _set_source(w, l, parent, name, v)
+        return w
+    return fn
+
+
+def repair_source(l, parent, name):
+    """world edit: the source of the request gets a new, well-formed version"""
+    def fn(w, ver):
+        w = edit_world(w, ver, what='none-but-copy')
+        _set_source(w, l, parent, name, ver.new())
+        return w
+    return fn
+
+
+def _set_source(w, l, parent, name, v):
+    if l == 0:
+        f = spec_file({x: 1 for x in FILES}, {'parent': parent, 'name': name})
+        w['files'][f] = v
+    else:
+        for c in w['custom']:
+            if c[0] == l and rq_key({'parent': c[1], 'name': c[2]}) == rq_key({'parent': parent, 'name': name}):
+                c[3] = v
 
 
 def rq_index(rqs, l, parent, name, form='str'):
@@ -1548,6 +1647,31 @@ def directed_stack_cases():
         w0 = base_world(ver, files=[f for f in FILES if f != '/T/d0/vc13p.yaml'])
         mk([run, ('world', with_new('/T/d0/vc13p.yaml')), run, ('world', without('/T/d0/vc13p.yaml')), run,
             {'op': 'clearAll'}, run, ('world', with_new('/T/d0/vc13p.yaml')), run], world=w0, tag=f'appear:{via}')
+    # a source that is malformed (top level not a mapping) when it is first looked up, and repaired afterwards: "a
+    # creator that raises leaves nothing cached so a later look-up tries again" end to end. Every client kind, the file
+    # loader by both spellings of the request, both custom loaders; with every way of clearing in between; with
+    # no_cache; a source that goes bad AFTER it was cached; a second request that means the same file.
+    tg = [(0, None, '/T/d0/vc13p', True), (0, '/T/d0', 'vc13p', False), (1, None, 'n', True), (2, '/x/a', 'b+c', False)]
+    for l, par, n, noparent in tg:
+        i = rq_index(rqs, l, par, n)
+        brk, fix = ('world', break_source(l, par, n)), ('world', repair_source(l, par, n))
+        for via in VIAS_ANY + (VIAS_NOPARENT if noparent else []):
+            run = {'op': 'run', 'c': 0, 'l': l, 'rq': i, 'via': via}
+            run2 = {'op': 'run', 'c': 1, 'l': l, 'rq': i, 'via': 'new'}
+            mk([brk, run, fix, run, run2, {'op': 'clearPipes', 'l': l, 'how': 'clear_pipes'}, run, {'op': 'clearFiles'}, run, run],
+               tag=f'rejected:{via}')
+            mk([brk, run, fix, {'op': 'clearFiles'}, run, brk, run, run2], tag=f'rejected:{via}')
+            mk([run, brk, run, {'op': 'clearAll'}, run, fix, run, {'op': 'clearLoaders'}, run, {'op': 'clearAll'}, run],
+               tag=f'rejected:{via}')
+            mk([brk, run, fix, run, run], noCache=True, tag=f'rejected-nocache:{via}')
+            mk([brk, run, brk, run, fix, {'op': 'noCache', 'b': True}, run, {'op': 'noCache', 'b': False}, run],
+               tag=f'rejected:{via}')
+    i1, i2 = rq_index(rqs, 0, None, '/T/d0/vc13p'), rq_index(rqs, 0, '/T/d0', 'vc13p')
+    for a, b in ((i1, i2), (i2, i1)):
+        ra = {'op': 'run', 'c': 0, 'l': 0, 'rq': a, 'via': 'new'}
+        rb = {'op': 'run', 'c': 1, 'l': 0, 'rq': b, 'via': 'obj'}
+        mk([('world', break_source(0, None, '/T/d0/vc13p')), ra, ('world', repair_source(0, None, '/T/d0/vc13p')), rb, ra,
+            {'op': 'clearFiles'}, rb, ra], tag='rejected:two-requests')
     # two loaders, the same (parent, name); and pairs whose keys coincide under '+' / path joining, all orders
     pairs = [(('/x/a', 'b+c'), ('/x/a+b', 'c')), (('/L', 'sub/c'), ('/L/sub', 'c')), (('/L', 'x'), (None, '/L/x')),
              ((None, '/L/x'), ('/L', '/L/x')), ((None, 'n'), ('', 'n'))]
@@ -1569,6 +1693,10 @@ def random_stack_case(rng):
     ver = Versions()
     files = [f for f in FILES if rng.random() < 0.8]
     w0 = base_world(ver, files=files)
+    if rng.random() < 0.3:
+        # some sources are malformed from the start
+        vs = list(w0['files'].values()) + [c[3] for c in w0['custom']]
+        w0['badv'] = [v for v in vs if rng.random() < BAD_P]
     w = w0
     ops = []
     nclients = 3
@@ -1885,6 +2013,8 @@ def run(env, res):
         nproc = min(14, os.cpu_count() or 2)
         chunks = [(work[i::nproc * 4], env.tier, env.seed) for i in range(nproc * 4)]
         ctx = mp.get_context('fork')
+        from .. import impl_c13
+        impl_c13._lib_dir()      # made once here and inherited by the workers (a worker's own atexit never runs)
         with ctx.Pool(nproc) as pool:
             for findings, dist, n, nontrivial, samples in pool.imap_unordered(_worker_chunk, chunks):
                 res.findings += findings
